@@ -104,6 +104,9 @@ def gen_part(rng, ndim, ncpu):
         cols += [("velocity_" + c, "d") for c in "xyz"[:ndim]]
     extra = [c for c in PART_EXTRA if rng.random() < 0.6]
     cols += extra
+    if ndim == 2 and rng.random() < 0.2:
+        # a 2.5-D run: a third velocity (or position) component is stored although the mesh has two dimensions; it stays a scalar member
+        cols.append((rng.choice(["velocity_z", "velocity_z", "position_z"]), "d"))
     if rng.random() < 0.3:
         rng.shuffle(cols)
     if len(cols) < 2:
@@ -131,6 +134,8 @@ def gen_sink(rng, ndim):
     drop = {"z", "vz"} if ndim < 3 else set()
     if ndim < 2:
         drop |= {"y", "vy"}
+    if ndim == 2 and rng.random() < 0.3:
+        drop = set()  # the sink table of a 2-D run may still carry z and vz (they stay scalar members)
     cols = [c for c in pool if c[0] not in drop and (c[0] in ("id", "msink") or rng.random() < 0.75)]
     return {"nsink": rng.choice([1, 1, 2, 3, 6]), "columns": [list(c) for c in cols], "empty": rng.random() < 0.1}
 
@@ -300,14 +305,14 @@ def compare_full(ds, world, lmax=None, expect_rows=None, raw_names=None, derived
             derived_keys.add("mass")
         if "B_left" in want_keys and "B_right" in want_keys:
             derived_keys.add("B_field")
-    for k in derived_keys:
+    for k in sorted(derived_keys):
         if k not in have:
             out.append(("structure", "missing-derived", {"key": k}))
     # keys that correspond to stored variables which were not asked for (projection loads) are errors;
     # any other extra key (e.g. a further derived variable of a user configuration) is not the property's business
     all_stored = expected_mesh_keys(world, None)
     stored_names = set(all_stored) | {r for fam in all_stored.values() for r in fam}
-    for k in have:
+    for k in sorted(have):
         if k not in want_keys and k not in derived_keys and k in stored_names:
             out.append(("structure", "unexpected-key", {"key": k}))
     if out:
